@@ -102,6 +102,7 @@ func cmdCheck(args []string) int {
 	solver := fs.String("solver", "z3", "solver back end")
 	only := fs.String("only", "", "run only entries whose name contains this")
 	verbose := fs.Bool("v", false, "verbose")
+	conformN := fs.Int("conform", -1, "per entry, replay this many completed paths natively and compare the labels met (default: 0 quick, 8 thorough)")
 	noReplay := fs.Bool("noreplay", false, "skip native replay (debugging only; violations then count as unconfirmed)")
 	fs.Parse(args[1:])
 	id := args[0]
@@ -165,6 +166,21 @@ func cmdCheck(args []string) int {
 	os.MkdirAll(outDir, 0o755)
 	nReplay := 0
 	replayed := 0
+	replayErrors := 0
+	bins := map[string]*replayBin{}
+	defer func() {
+		for _, rb := range bins {
+			rb.close()
+		}
+	}()
+	if *conformN < 0 {
+		*conformN = 0
+		if *tier == "thorough" {
+			*conformN = 8
+		}
+	}
+	conformDir := filepath.Join(*verif, "out", "conform", id)
+	var conform conformStats
 	for _, ent := range cfg.Entries {
 		if !inTier(ent, *tier) {
 			continue
@@ -186,6 +202,9 @@ func cmdCheck(args []string) int {
 		if ent.MaxPaths > 0 {
 			ex.maxPaths = ent.MaxPaths
 		}
+		if !*noReplay && !ent.MapPerm {
+			ex.conformK = *conformN
+		}
 		res := ex.Run()
 		all = append(all, res)
 		fmt.Fprint(os.Stderr, res.Summary())
@@ -206,6 +225,44 @@ func cmdCheck(args []string) int {
 		}
 		if res.Truncated {
 			inconclusive++
+		}
+		// translator validation: completed paths replayed natively, labels compared
+		if len(res.Conform) > 0 {
+			os.MkdirAll(conformDir, 0o755)
+			full := fullFunc(ent.Func)
+			k := strings.LastIndex(full, ".")
+			rb := bins[full[:k]]
+			if rb == nil {
+				rb = buildReplayBin(*repo, *verif, hd, full[:k])
+				bins[full[:k]] = rb
+			}
+			for i, smp := range res.Conform {
+				path := filepath.Join(conformDir, fmt.Sprintf("%s-%d.json", shortName(ent.Func), i))
+				jb, _ := json.MarshalIndent(map[string]interface{}{"property": id, "entry": full, "label": "", "model": smp.Model, "labels": smp.Labels, "tier": *tier}, "", " ")
+				os.WriteFile(path, jb, 0o644)
+				out := rb.run(path, full[k+1:], *tier)
+				conform.Samples++
+				got, okTrace := "", false
+				for _, line := range strings.Split(out, "\n") {
+					if strings.HasPrefix(line, "VERIF-REPLAY: TRACE") {
+						got = strings.TrimSpace(strings.TrimPrefix(line, "VERIF-REPLAY: TRACE"))
+						okTrace = true
+					}
+				}
+				want := strings.Join(smp.Labels, " ")
+				switch {
+				case !okTrace || strings.Contains(out, "VERIF-REPLAY: PANIC") || strings.Contains(out, "ASSUME-FAILED") || strings.Contains(out, "SYM-ASSERT-FAILED"):
+					conform.Mismatch++
+					conform.Details = append(conform.Details, fmt.Sprintf("%s: native run diverged (%s)", path, tailStr(strings.TrimSpace(out), 300)))
+					fmt.Fprintf(os.Stderr, "CONFORMANCE-MISMATCH %s (native run failed an assumption/assertion or panicked)\n", path)
+				case got != want:
+					conform.Mismatch++
+					conform.Details = append(conform.Details, fmt.Sprintf("%s: engine met [%s], native met [%s]", path, want, got))
+					fmt.Fprintf(os.Stderr, "CONFORMANCE-MISMATCH %s\n  engine: %s\n  native: %s\n", path, want, got)
+				default:
+					conform.Match++
+				}
+			}
 		}
 		var labels []string
 		for l := range res.Asserts {
@@ -240,12 +297,17 @@ func cmdCheck(args []string) int {
 				if *noReplay {
 					v.Status = "unconfirmed"
 				} else {
-					ok, out := nativeReplay(*repo, *verif, hd, path)
+					ok, out := nativeReplayWith(bins, *repo, *verif, hd, path)
 					replayed++
 					v.ReplayOut = tailStr(out, 600)
 					if ok {
 						v.Status = "confirmed"
 						confirmed = true
+					} else if !strings.Contains(out, "VERIF-REPLAY: DONE") && !strings.Contains(out, "VERIF-REPLAY: ASSUME-FAILED") {
+						// the native run never got through the harness: nothing can be concluded
+						v.Status = "replay-error"
+						replayErrors++
+						fmt.Fprintf(os.Stderr, "REPLAY-ERROR %s: %s\n", path, tailStr(strings.TrimSpace(out), 400))
 					} else {
 						v.Status = "spurious"
 					}
@@ -289,11 +351,22 @@ func cmdCheck(args []string) int {
 		}
 	}
 	broken := false
+	for _, v := range viol {
+		if v.Status == "spurious" {
+			// the engine's counterexample does not reproduce: encoding or stub too weak on that path
+			inconclusive++
+			fmt.Fprintf(os.Stderr, "SPURIOUS property=%s entry=%s label=%s (engine counterexample not reproduced natively; counted as inconclusive)\n", id, v.Entry, v.Label)
+		}
+	}
+	if replayErrors > 0 {
+		fmt.Fprintf(os.Stderr, "BROKEN-CHECK property=%s %d counterexample(s) could not be replayed natively\n", id, replayErrors)
+		broken = true
+	}
 	if len(missingReach) > 0 {
 		fmt.Fprintf(os.Stderr, "BROKEN-CHECK property=%s vacuous: reachability witnesses not met: %v\n", id, missingReach)
 		broken = true
 	}
-	writeEvidence(*verif, id, *tier, seed, &cfg, eng, all, viol, nViol, inconclusive, missingReach, replayed, time.Since(start))
+	writeEvidence(*verif, id, *tier, seed, &cfg, eng, all, viol, nViol, inconclusive, missingReach, replayed+conform.Samples, &conform, time.Since(start))
 	if exit == 0 && broken {
 		return 2
 	}
@@ -337,6 +410,13 @@ func tailStr(s string, n int) string {
 	return "…" + s[len(s)-n:]
 }
 
+type conformStats struct {
+	Samples  int      `json:"samples"`
+	Match    int      `json:"matched"`
+	Mismatch int      `json:"mismatched"`
+	Details  []string `json:"details,omitempty"`
+}
+
 // ---- native replay ----------------------------------------------------------------
 
 const replayTestSrc = `package %s
@@ -344,6 +424,7 @@ const replayTestSrc = `package %s
 import (
 	"fmt"
 	"os"
+	"strings"
 	"testing"
 
 	"%s/zzverif/sym"
@@ -368,29 +449,36 @@ func TestVerifReplay(t *testing.T) {
 		f()
 	}()
 	fmt.Printf("VERIF-REPLAY: DONE failures=%%q missing=%%d\n", sym.Failures, len(sym.Missing))
+	fmt.Printf("VERIF-REPLAY: TRACE %%s\n", strings.Join(sym.Trace, " "))
 }
 `
 
-// nativeReplay runs the harness natively (go test -overlay) with the model.
-func nativeReplay(repo, verif string, harnessDirs []string, replayPath string) (bool, string) {
-	b, err := os.ReadFile(replayPath)
-	if err != nil {
-		return false, err.Error()
+// replayBin is a compiled native test binary of one harness package.
+type replayBin struct {
+	bin, tmp string
+	runDir   string
+	env      []string
+	err      string
+}
+
+func (rb *replayBin) close() {
+	if rb != nil && rb.tmp != "" {
+		os.RemoveAll(rb.tmp)
 	}
-	var doc struct {
-		Entry string `json:"entry"`
-		Label string `json:"label"`
-		Tier  string `json:"tier"`
-	}
-	json.Unmarshal(b, &doc)
-	i := strings.LastIndex(doc.Entry, ".")
-	pkgPath, fn := doc.Entry[:i], doc.Entry[i+1:]
+}
+
+// buildReplayBin compiles the harness package of pkgPath natively (go test -c -overlay).
+func buildReplayBin(repo, verif string, harnessDirs []string, pkgPath string) *replayBin {
 	rel := strings.TrimPrefix(strings.TrimPrefix(pkgPath, modPath), "/")
 	tmp, err := os.MkdirTemp("", "gosym-replay-")
 	if err != nil {
-		return false, err.Error()
+		return &replayBin{err: err.Error()}
 	}
-	defer os.RemoveAll(tmp)
+	rb := &replayBin{tmp: tmp, runDir: tmp}
+	// run where `go test` would run it (the repo's own tests of the package read testdata/ relative to it)
+	if st, err := os.Stat(filepath.Join(repo, rel)); err == nil && st.IsDir() {
+		rb.runDir = filepath.Join(repo, rel)
+	}
 	repl := map[string]string{}
 	addDir := func(srcDir, dstDir string, native bool) {
 		filepath.Walk(srcDir, func(path string, info os.FileInfo, err error) error {
@@ -423,7 +511,8 @@ func nativeReplay(repo, verif string, harnessDirs []string, replayPath string) (
 		}
 	}
 	if pkgName == "" {
-		return false, "cannot determine package name for " + rel
+		rb.err = "cannot determine package name for " + rel
+		return rb
 	}
 	testFile := filepath.Join(tmp, "zz_verif_replay_test.go")
 	os.WriteFile(testFile, []byte(fmt.Sprintf(replayTestSrc, pkgName, modPath)), 0o644)
@@ -433,14 +522,61 @@ func nativeReplay(repo, verif string, harnessDirs []string, replayPath string) (
 	os.WriteFile(ovPath, ovb, 0o644)
 	// build the test binary (no chdir into the package: overlay-only packages have
 	// no directory on disk), then run it
-	bin := filepath.Join(tmp, "replay.test")
-	env := append(os.Environ(), "GOFLAGS=-mod=mod", "GOPROXY=off", "GOSUMDB=off", "GOTOOLCHAIN=local",
-		"VERIF_REPLAY="+replayPath, "VERIF_ENTRY="+fn, "VERIF_TIER="+doc.Tier)
-	build := exec.Command("go", "test", "-c", "-vet=off", "-overlay", ovPath, "-o", bin, "./"+rel)
+	rb.bin = filepath.Join(tmp, "replay.test")
+	rb.env = append(os.Environ(), "GOFLAGS=-mod=mod", "GOPROXY=off", "GOSUMDB=off", "GOTOOLCHAIN=local")
+	build := exec.Command("go", "test", "-c", "-vet=off", "-overlay", ovPath, "-o", rb.bin, "./"+rel)
 	build.Dir = repo
-	build.Env = env
+	build.Env = rb.env
 	if bout, err := build.CombinedOutput(); err != nil {
-		return false, "replay build failed: " + string(bout)
+		rb.err = "replay build failed: " + string(bout)
+	}
+	return rb
+}
+
+// run executes one entry natively on the model stored in replayPath.
+func (rb *replayBin) run(replayPath, fn, tier string) string {
+	if rb.err != "" {
+		return rb.err
+	}
+	cmd := exec.Command(rb.bin, "-test.run", "^TestVerifReplay$", "-test.v", "-test.count=1", "-test.timeout=10m")
+	cmd.Dir = rb.runDir
+	cmd.Env = append(append([]string{}, rb.env...), "VERIF_REPLAY="+replayPath, "VERIF_ENTRY="+fn, "VERIF_TIER="+tier)
+	out, _ := cmd.CombinedOutput()
+	return string(out)
+}
+
+// nativeReplay runs the harness natively (go test -overlay) with the model.
+func nativeReplay(repo, verif string, harnessDirs []string, replayPath string) (bool, string) {
+	return nativeReplayWith(nil, repo, verif, harnessDirs, replayPath)
+}
+
+func nativeReplayWith(cache map[string]*replayBin, repo, verif string, harnessDirs []string, replayPath string) (bool, string) {
+	b, err := os.ReadFile(replayPath)
+	if err != nil {
+		return false, err.Error()
+	}
+	var doc struct {
+		Entry string `json:"entry"`
+		Label string `json:"label"`
+		Tier  string `json:"tier"`
+	}
+	json.Unmarshal(b, &doc)
+	i := strings.LastIndex(doc.Entry, ".")
+	pkgPath, fn := doc.Entry[:i], doc.Entry[i+1:]
+	var rb *replayBin
+	if cache != nil {
+		rb = cache[pkgPath]
+	}
+	if rb == nil {
+		rb = buildReplayBin(repo, verif, harnessDirs, pkgPath)
+		if cache != nil {
+			cache[pkgPath] = rb
+		} else {
+			defer rb.close()
+		}
+	}
+	if rb.err != "" {
+		return false, rb.err
 	}
 	// Go's map iteration order cannot be dictated natively: a counterexample that
 	// depends on it is replayed repeatedly until the runtime happens to pick a
@@ -451,11 +587,7 @@ func nativeReplay(repo, verif string, harnessDirs []string, replayPath string) (
 	}
 	so := ""
 	for a := 0; a < attempts; a++ {
-		cmd := exec.Command(bin, "-test.run", "^TestVerifReplay$", "-test.v", "-test.count=1", "-test.timeout=10m")
-		cmd.Dir = tmp
-		cmd.Env = env
-		out, _ := cmd.CombinedOutput()
-		so = string(out)
+		so = rb.run(replayPath, fn, doc.Tier)
 		ok := false
 		if doc.Label == "uncaught-panic" {
 			ok = strings.Contains(so, "VERIF-REPLAY: PANIC")
@@ -507,7 +639,7 @@ func cmdReplay(args []string) int {
 
 // ---- evidence ----------------------------------------------------------------------
 
-func writeEvidence(verif, id, tier string, seed int, cfg *CheckCfg, eng *Engine, all []*Results, viol []violationOut, nViol, inconclusive int, missingReach []string, replayed int, wall time.Duration) {
+func writeEvidence(verif, id, tier string, seed int, cfg *CheckCfg, eng *Engine, all []*Results, viol []violationOut, nViol, inconclusive int, missingReach []string, replayed int, conform *conformStats, wall time.Duration) {
 	states, transitions, queries, sat, unsat, unknown := 0, 0, 0, 0, 0, 0
 	var solverT float64
 	funcs := map[string]bool{}
@@ -600,6 +732,7 @@ func writeEvidence(verif, id, tier string, seed int, cfg *CheckCfg, eng *Engine,
 		"outside":                       cfg.Outside,
 		"entries":                       entries,
 		"violation_details":             viol,
+		"conformance":                   conform,
 		"packages_loaded":               len(eng.spkgs),
 		"load_s":                        eng.loadTime.Seconds(),
 		"exhaustive":                    false,
